@@ -137,6 +137,8 @@ func TestC01(t *testing.T) {
 	p = c.rec.NewPart("truncations", "every prefix of every literal form / corpus input / short attack-grammar member; hostile construct openers at end of input behind 14 contexts with short and 45-byte bodies", false, false, "")
 	c.ParRange(p, int64(len(tr)), func(w *Worker, i int64) { judge(w, tr[i]) })
 
+	p = c.rec.NewPart("source_bytes", fmt.Sprintf("bytes the SQLi source files write as literals and the byte-class alphabet lacks, inserted at every position of every string of 0..%d core symbols, and behind every hostile construct opener at the end of the input", 3), false, true, "")
+	c.srcByteInputs(p, extraBytes(srcDict().SQLBytes, gen.AlphaSQL), gen.CoreSQL, 3, sqlHostile, judge)
 	p = c.rec.NewPart("source_dictionary", fmt.Sprintf("%d lead constructs (closed and open literals of every kind, numbers, words, punctuation, comments) x blank? x W x blank? x every tail of 0..3 symbols over %q, for each word W (as written, upper, lower) that occurs as a literal in the SQLi source files and is not a table key", len(sqlDictLeads), sqlDictTail), false, true, "")
 	c.sqlDictInputs(p, 3, judge)
 	p = c.rec.NewPart("rapid_fragments", "rapid over the SQL fragment grammar", true, false, "")
